@@ -9,6 +9,7 @@ accessor operation on either the numpy-backed or the dask-backed cube.
 from __future__ import annotations
 
 import itertools
+import random
 import warnings
 
 import numpy as np
@@ -618,6 +619,8 @@ def build_cube(scn, perm=None):
         del da.attrs["nodata"]
     if op == "mktrend" and not p["nodata_attr"]:
         del da.attrs["nodata"]
+    if (scn.get("pipe") or {}).get("pre") == "readonly":
+        da.data.setflags(write=False)  # e.g. a memory-mapped / decoded-once buffer; same for both paths
     return da
 
 
@@ -643,8 +646,160 @@ def lazy_chunks(scn):
     return ch
 
 
-def make_lazy(scn, cube):
-    return cube.chunk(lazy_chunks(scn))
+def make_lazy(scn, cube, watch=None):
+    """dask-backed version of ``cube``.  Without a pipeline this is ``cube.chunk(...)``; with
+    ``scn['pipe']['pre']`` the dask array has an *upstream history* (lazy transpose, cast, strided or
+    fancy selection, concatenation + rechunk, Fortran-ordered / read-only base ...) that computes to
+    exactly the same cube with the same chunks -- what a kernel sees as "a block" then differs in
+    strides, ownership, writability and graph shape, which the property says must not matter.
+    ``watch`` (dict) receives the base buffers the dask graph reads from (O3)."""
+    pre = (scn.get("pipe") or {}).get("pre")
+    if not pre:
+        return cube.chunk(lazy_chunks(scn))
+    import dask.array as dsa
+
+    dims = list(cube.dims)
+    arr = cube.data
+    lc = lazy_chunks(scn)
+    chunks = tuple(lc.get(d, -1) if lc.get(d, -1) != -1 else (arr.shape[i],) for i, d in enumerate(dims))
+    chunks = tuple(tuple(c) for c in chunks)
+    prng = random.Random((scn.get("pipe") or {}).get("seed", 0))
+    base = arr
+    iy = dims.index("y")
+    it = dims.index("time")
+    if pre == "lazy-transpose":
+        order = ["time", "y", "x"] if dims != ["time", "y", "x"] else ["x", "y", "time"]
+        base = np.ascontiguousarray(cube.transpose(*order).data)
+        bch = tuple(chunks[dims.index(d)] for d in order)
+        d = dsa.from_array(base, chunks=bch).transpose([order.index(dd) for dd in dims])
+    elif pre == "astype":
+        wide = {"i": "int64", "u": "uint64", "f": "float64"}[arr.dtype.kind]
+        base = arr.astype(wide)
+        d = dsa.from_array(base, chunks=chunks).astype(arr.dtype)
+    elif pre == "arith":
+        d = dsa.from_array(arr, chunks=chunks) * 1
+    elif pre == "strided":
+        shp = list(arr.shape)
+        shp[iy] *= 2
+        base = np.full(shp, 77, dtype=arr.dtype)
+        sl = [slice(None)] * 3
+        sl[iy] = slice(None, None, 2)
+        base[tuple(sl)] = arr
+        bch = list(chunks)
+        bch[iy] = tuple(2 * c for c in chunks[iy])
+        d = dsa.from_array(base, chunks=tuple(bch))[tuple(sl)]
+    elif pre == "rechunk":
+        src = tuple(tuple(composition(prng, n)) for n in arr.shape)
+        d = dsa.from_array(arr, chunks=src).rechunk(chunks)
+    elif pre == "time-concat":
+        T = arr.shape[it]
+        k = prng.randint(1, T - 1) if T >= 2 else 0
+        sl1 = [slice(None)] * 3
+        sl2 = [slice(None)] * 3
+        sl1[it] = slice(0, k)
+        sl2[it] = slice(k, None)
+        ch1 = list(chunks)
+        ch2 = list(chunks)
+        ch1[it] = (k,)
+        ch2[it] = (T - k,)
+        if k == 0:
+            d = dsa.from_array(arr, chunks=chunks)
+        else:
+            d = dsa.concatenate([dsa.from_array(np.ascontiguousarray(arr[tuple(sl1)]), chunks=tuple(ch1)), dsa.from_array(np.ascontiguousarray(arr[tuple(sl2)]), chunks=tuple(ch2))], axis=it).rechunk(chunks)
+    elif pre == "fortran":
+        base = np.asfortranarray(arr)
+        d = dsa.from_array(base, chunks=chunks)
+    elif pre == "take":
+        n = arr.shape[iy]
+        perm = list(range(n))
+        prng.shuffle(perm)
+        inv = np.argsort(perm)
+        base = np.ascontiguousarray(np.take(arr, perm, axis=iy))  # base[..., j, ...] = arr[..., perm[j], ...]
+        d = dsa.take(dsa.from_array(base, chunks=chunks), inv, axis=iy).rechunk(chunks)
+    elif pre == "readonly":
+        d = dsa.from_array(arr, chunks=chunks)  # (build_cube made the buffer read-only for both paths)
+    else:
+        raise ValueError(pre)
+    if d.chunks != chunks:
+        d = d.rechunk(chunks)
+    if watch is not None and base is not arr:
+        watch["pre-base"] = base
+    return cube.copy(data=d)
+
+
+PRE_KINDS = ["lazy-transpose", "astype", "arith", "strided", "rechunk", "time-concat", "fortran", "take", "readonly"]
+POST_KINDS = ["isel", "point", "transpose", "max", "where", "astype", "diff"]
+POST_STRUCTURAL = ["isel", "point", "transpose"]
+
+
+def gen_pipe(rng, scn):
+    """Upstream history of the lazy cube and a downstream consumer of the result (O11)."""
+    op, p = scn["op"], scn["params"]
+    pipe = {"pre": None, "post": None, "seed": rng.randrange(2**31), "fa": rng.random(), "fb": rng.random()}
+    r = rng.random()
+    if r < 0.6:
+        pipe["pre"] = rng.choice(PRE_KINDS)
+    if r > 0.4:
+        # a dtype argument that only feeds the dask meta is a recorded finding (KF1/KF2); its
+        # consequences downstream are the same finding, so only structural consumers there
+        pipe["post"] = rng.choice(POST_STRUCTURAL if p.get("dtype") else POST_KINDS)
+    if pipe["pre"] == "astype" and scn["cube"]["dtype"] in ("int64", "uint64", "float64"):
+        pipe["pre"] = "arith"
+    # tee: the upstream cube is a second output of the same graph (its blocks are then shared
+    # between the kernel task and a plain consumer -- an in-place edit of a block shows there)
+    pipe["tee"] = bool(pipe["pre"]) and rng.random() < 0.5
+    return pipe
+
+
+def _post_leaf(da, pipe):
+    kind = pipe["post"]
+    fa, fb = pipe["fa"], pipe["fb"]
+    free = [d for d in da.dims if d != "time"]
+    if kind == "isel":
+        sel = {}
+        for d in free:
+            n = da.sizes[d]
+            a = min(n - 1, int(min(fa, fb) * n))
+            b = max(a + 1, int(np.ceil(max(fa, fb) * n)))
+            sel[d] = slice(a, b)
+        return da.isel(sel)
+    if kind == "point":
+        return da.isel({d: min(da.sizes[d] - 1, int(f * da.sizes[d])) for d, f in zip(free, (fa, fb, fa))})
+    if kind == "transpose":
+        return da.transpose(*reversed(da.dims))
+    if kind == "max":
+        if not free or da.dtype.kind not in "iuf":
+            return da
+        return da.max(dim=free[int(fa * len(free)) % len(free)])
+    if kind == "where":
+        if da.dtype.kind not in "iuf":
+            return da
+        return da.where(da > 0)
+    if kind == "astype":
+        if da.dtype.kind not in "iuf":
+            return da
+        return da.astype("float64")
+    if kind == "diff":
+        if "time" not in da.dims or da.dtype.kind not in "iuf" or da.sizes["time"] < 2:
+            return da
+        return da.astype("float64") - da.astype("float64").shift(time=1)
+    raise ValueError(kind)
+
+
+def apply_post(scn, res):
+    """Downstream consumer applied leaf-wise (same code for the eager and the lazy result)."""
+    pipe = scn.get("pipe") or {}
+    if not pipe.get("post"):
+        return res
+    if isinstance(res, xr.DataArray):
+        return _post_leaf(res, pipe)
+    if isinstance(res, xr.Dataset):
+        return {str(k): _post_leaf(res[k], pipe) for k in res.data_vars}
+    if isinstance(res, (list, tuple)):
+        return [apply_post(scn, r) for r in res]
+    if isinstance(res, dict):
+        return {k: apply_post(scn, r) for k, r in res.items()}
+    return res
 
 
 def secondary_for(scn, name, lazy, perm=None):
@@ -690,6 +845,11 @@ def build_aux(scn, lazy, perm=None):
 
 
 def apply_op(scn, cube, lazy, perm=None, aux=None):
+    """The scenario's accessor operation followed by its downstream consumer, if any (O11)."""
+    return apply_post(scn, apply_op_raw(scn, cube, lazy, perm=perm, aux=aux))
+
+
+def apply_op_raw(scn, cube, lazy, perm=None, aux=None):
     """Run the scenario's accessor operation on ``cube`` (numpy- or dask-backed)."""
     op, p = scn["op"], scn["params"]
     nodata = typed_scalar(scn, scn["nodata"], scn["cube"]["dtype"])
